@@ -79,6 +79,53 @@ def driver(flavour, name):
     return path
 
 
+FUZZ_FLAGS = ("-std=gnu++17 -O1 -g -fno-omit-frame-pointer -fsanitize=fuzzer,address,undefined -fno-sanitize-recover=all "
+              "-fno-sanitize=object-size -DQTLOGGER_STATIC -DQT_NO_DEBUG -DQT_CORE_LIB -fPIC " + GUARD)
+
+
+def ensure_fuzz():
+    """The one flavour not built through the repository's CMake (clang 14 cannot compile logger.cpp): the translation units C14 is
+    anchored in (formatters/*.cpp, filters/*.cpp, globbed) + drivers/fuzz_targets.cpp.  Rebuilt when any source under src/qtlogger
+    or the target file is newer than the binary.  Returns the path of the fuzz binary."""
+    import glob
+    from concurrent.futures import ThreadPoolExecutor
+    repo = repo_path()
+    bdir = build_dir("fuzz")
+    os.makedirs(bdir, exist_ok=True)
+    lock = open(os.path.join(bdir, ".verif.lock"), "w")
+    fcntl.flock(lock, fcntl.LOCK_EX)
+    try:
+        exe = os.path.join(bdir, "fuzz_targets")
+        srcs = sorted(glob.glob(os.path.join(repo, "src/qtlogger/formatters/*.cpp")) + glob.glob(os.path.join(repo, "src/qtlogger/filters/*.cpp")))
+        srcs.append(os.path.join(VERIF, "drivers", "fuzz_targets.cpp"))
+        deps = srcs + glob.glob(os.path.join(repo, "src/qtlogger/**/*.h"), recursive=True)
+        newest = max(os.path.getmtime(f) for f in deps)
+        if os.path.exists(exe) and os.path.getmtime(exe) >= newest:
+            return exe
+        inc = ["-I" + os.path.join(repo, "src"), "-I" + os.path.join(repo, "src", "qtlogger")]
+        qt = subprocess.run(["pkg-config", "--cflags", "Qt5Core"], stdout=subprocess.PIPE, text=True).stdout.split()
+        qtl = subprocess.run(["pkg-config", "--libs", "Qt5Core"], stdout=subprocess.PIPE, text=True).stdout.split()
+
+        def cc(src):
+            obj = os.path.join(bdir, os.path.basename(src) + ".o")
+            r = subprocess.run(["clang++-14"] + FUZZ_FLAGS.split() + inc + qt + ["-c", src, "-o", obj], stdout=subprocess.PIPE,
+                               stderr=subprocess.STDOUT, text=True)
+            return obj, r.returncode, r.stdout
+        with ThreadPoolExecutor(max_workers=8) as ex:
+            res = list(ex.map(cc, srcs))
+        for obj, rc, out in res:
+            if rc != 0:
+                raise BuildError("clang failed for %s:\n%s" % (obj, out[-4000:]))
+        r = subprocess.run(["clang++-14", "-fsanitize=fuzzer,address,undefined"] + [o for o, _, _ in res] + ["-o", exe] + qtl,
+                           stdout=subprocess.PIPE, stderr=subprocess.STDOUT, text=True)
+        if r.returncode != 0:
+            raise BuildError("fuzz link failed:\n%s" % r.stdout[-4000:])
+        return exe
+    finally:
+        fcntl.flock(lock, fcntl.LOCK_UN)
+        lock.close()
+
+
 if __name__ == "__main__":
     for fl in sys.argv[1:] or ["san", "tsan", "plain"]:
-        print(fl, ensure(fl, quiet=False))
+        print(fl, ensure_fuzz() if fl == "fuzz" else ensure(fl, quiet=False))
